@@ -138,6 +138,7 @@ func runC06(c *Ctx) {
 				s4 = "err:" + ek4
 			}
 			c.Stat("initversion_decB")
+			obs = append(obs, "decBiv="+s4)
 			if pan4 {
 				fail("codec B %s decoder panicked on codec A bytes", p.Kind)
 			} else if w := canon(p); s4 != w {
